@@ -192,27 +192,31 @@ func (c *vctx) flush() error {
 
 var verifEngines = map[string]func(*vctx) error{}
 
-// verifParams: numeric constants of the running code, printed into coq/Gen/Params.v on every run.
-var verifParams = map[string]func() int64{}
+// verifParams: numeric constants of the running code, per property, printed into
+// coq/Gen/Params<Prop>.v (Module Params<Prop>) on every run of that property's check.
+var verifParams = map[string]map[string]func() int64{}
 
-func verifParam(name string, f func() int64) bool {
-	verifParams[name] = f
+func verifParam(prop, name string, f func() int64) bool {
+	if verifParams[prop] == nil {
+		verifParams[prop] = map[string]func() int64{}
+	}
+	verifParams[prop][name] = f
 	return true
 }
 
-func verifParamsFile() string {
-	names := make([]string, 0, len(verifParams))
-	for k := range verifParams {
+func verifParamsFile(prop string) string {
+	names := make([]string, 0, len(verifParams[prop]))
+	for k := range verifParams[prop] {
 		names = append(names, k)
 	}
 	sort.Strings(names)
 	var sb strings.Builder
-	sb.WriteString("(* REGENERATED on every check run from the harness binary built from /repo (restic-verif params). *)\n")
-	sb.WriteString("From Coq Require Import ZArith.\nModule Params.\nOpen Scope Z_scope.\n")
+	sb.WriteString("(* REGENERATED on every check run from the harness binary built from /repo (restic-verif params " + prop + "). *)\n")
+	sb.WriteString("From Coq Require Import ZArith.\nModule Params" + prop + ".\nOpen Scope Z_scope.\n")
 	for _, k := range names {
-		fmt.Fprintf(&sb, "Definition %s : Z := %d.\n", k, verifParams[k]())
+		fmt.Fprintf(&sb, "Definition %s : Z := %d.\n", k, verifParams[prop][k]())
 	}
-	sb.WriteString("End Params.\n")
+	sb.WriteString("End Params" + prop + ".\n")
 	return sb.String()
 }
 
@@ -223,8 +227,11 @@ func verifRegister(name string, f func(*vctx) error) bool {
 
 func verifMain() int {
 	args := os.Args[1:]
-	if len(args) >= 1 && args[0] == "params" {
-		fmt.Print(verifParamsFile())
+	if len(args) >= 2 && args[0] == "params" {
+		if len(verifParams[args[1]]) == 0 {
+			return 0 // no parameters registered: print nothing, no file is generated
+		}
+		fmt.Print(verifParamsFile(args[1]))
 		return 0
 	}
 	if len(args) >= 1 && args[0] == "list" {
